@@ -401,7 +401,10 @@ PROPS["C12"] = dict(
                 "overflow / shift / conversion / division checks are the safety obligations inside the real function bodies (class S). "
                 "Functions not under contract are listed in clauses_not_decided.",
     trusted_base=["frame-only contracts for callees whose values do not matter to safety (listed under contracts_assumed when never enforced)"],
-    not_decided=["functions without a totality contract in this round: cellToLatLng, cellToBoundary, directedEdgeToBoundary, vertexToLatLng, "
+    not_decided=["_h3ToFaceIjk for indexes in the twelve pentagon base cells and the arithmetic-overflow obligations of its digit walk (jobs parked): "
+                 "cellToLatLng / cellToBoundary are proved against the contract _h3ToFaceIjk_safe, which is enforced for the other 116 base-cell "
+                 "numbers only; their floating-point projection callees are frame contracts",
+                 "functions without a totality contract in this round: directedEdgeToBoundary, vertexToLatLng, "
                  "cellAreaRads2, edgeLengthRads, greatCircleDistanceRads, gridDisksUnsafe, gridDiskDistancesSafe, compactCells, polygonToCells "
                  "and maxPolygonToCellsSize (beyond the invalid-flags path), cellsToLinkedMultiPolygon, destroyLinkedMultiPolygon; the "
                  "geometric callees replaced by frame-only contracts; write bounds of gridDiskDistancesUnsafe (only its arithmetic and codes)",
@@ -669,8 +672,9 @@ PROPS["C19"] = dict(
                 "resolutions = all 192 pentagons that exist), the real getIcosahedronFaces with all its real callees (integer face-overage "
                 "arithmetic only, no floating point on this path) on the concrete index: success with five distinct faces 0..19, every "
                 "safety obligation of the executed path discharged.",
-    trusted_base=["_adjustOverageClassII / _adjustPentVertOverage produce a face in 0..19 (assumed frame contracts in the shape proof; the "
-                  "pentagon enumeration uses the real ones)"], assumptions=[],
+    trusted_base=["_adjustPentVertOverage produces a face in 0..19 (assumed frame contract in the shape proof; the pentagon enumeration uses the "
+                  "real function); for _adjustOverageClassII the face range is enforced on the real function (c12.adjustOverageClassII), its "
+                  "ghost bookkeeping (one call per vertex) is part of the frame contract"], assumptions=[],
     not_decided=["the reported faces are exactly those the cell's interior meets (geometry)", "a valid hexagon always succeeds with one or two faces"],
     level_text="Unbounded proof of the shape clauses for all 2^64 inputs; the pentagon clause is decided for every one of the 192 pentagons "
                "(finite domain, exhaustively enumerated, no bound); the geometric meaning and the hexagon success clause are not decided.",
@@ -736,6 +740,11 @@ J(name="c12.gridDiskUnsafe", props=["C12", "C18", "C05"], harness="c12.c", entry
 
 J(name="c12.h3ToFaceIjk.badbc", props=["C12", "C18"], harness="c12.c", entry="h_h3ToFaceIjk", enforce=["_h3ToFaceIjk/_h3ToFaceIjk_badbc"],
   unwind=17, timeout=900, checks=["--no-standard-checks", "--bounds-check", "--pointer-check"])
+J(name="c12.adjustOverageClassII", props=["C12", "C18", "C19"], harness="c12.c", entry="h_adjustOverageClassII",
+  enforce=["_adjustOverageClassII/_adjustOverageClassII_safe"], unwind=7, checks=["--no-standard-checks", "--bounds-check", "--pointer-check"])
+J(name="c12.h3ToFaceIjk.hexbc.m", props=["C12", "C18"], harness="c12.c", entry="h_h3ToFaceIjk", enforce=["_h3ToFaceIjk/_h3ToFaceIjk_hexbc"],
+  replace=["_adjustOverageClassII/_adjustOverageClassII_safe"], unwind=17, timeout=900,
+  checks=["--no-standard-checks", "--bounds-check", "--pointer-check"], replay=dict(fn="cellToLatLng_bc", args=["h"]))
 for fres in range(16):
     J(name="c12.h3ToFaceIjk.hexbc.r%d" % fres, props=["C12", "C18"], harness="c12.c", entry="h_h3ToFaceIjk_res", defs=["FRES=%d" % fres],
       enforce=["_h3ToFaceIjk/_h3ToFaceIjk_hexbc"], unwind=17, timeout=600, tier="never",
@@ -744,6 +753,14 @@ J(name="c12.h3ToFaceIjk.hexbc.arith", props=["C12"], harness="c12.c", entry="h_h
   unwind=17, timeout=1800, tier="never")   # with the arithmetic-overflow checks on: does not finish in 30 min (15 symbolic digit levels of aperture-7 arithmetic)
 J(name="c12.h3ToFaceIjk.hexbc", props=["C12", "C18"], harness="c12.c", entry="h_h3ToFaceIjk", enforce=["_h3ToFaceIjk/_h3ToFaceIjk_hexbc"],
   unwind=17, timeout=3000, tier="never", checks=["--no-standard-checks", "--bounds-check", "--pointer-check"])   # out of memory (8 GB) after 13 min
+J(name="c12.h3ToFaceIjk.pentbc.m", props=["C12", "C18"], harness="c12.c", entry="h_h3ToFaceIjk", enforce=["_h3ToFaceIjk/_h3ToFaceIjk_pentbc"],
+  replace=["_adjustOverageClassII/_adjustOverageClassII_safe"], tier="never",   # parked: with --apply-loop-contracts DFCC reports the loop counters of the
+  # (unwound) callees _h3ToFaceIjkWithInitializedFijk / _h3Rotate60cw as not assignable: spurious frame failures, not a property violation
+  unwind=17, timeout=900, checks=["--no-standard-checks", "--bounds-check", "--pointer-check"],
+  loops=[dict(fn="_h3ToFaceIjk", loop=0, locals=["fijk", "res"], assigns="*fijk",
+              inv="fijk->face >= 0 && fijk->face <= 19 && res == __CPROVER_loop_entry(res) && fijk == __CPROVER_loop_entry(fijk)")])
+J(name="c12.h3ToFaceIjk.hexbc.m.arith", props=["C12"], harness="c12.c", entry="h_h3ToFaceIjk", enforce=["_h3ToFaceIjk/_h3ToFaceIjk_hexbc"],
+  replace=["_adjustOverageClassII/_adjustOverageClassII_safe"], unwind=17, timeout=1500, tier="never")
 J(name="c12.h3ToFaceIjk.pentbc", props=["C12", "C18"], harness="c12.c", entry="h_h3ToFaceIjk", enforce=["_h3ToFaceIjk/_h3ToFaceIjk_pentbc"],
   unwind=17, timeout=1800, checks=["--no-standard-checks", "--bounds-check", "--pointer-check"], tier="never",  # parked: DFCC reports the callees' own
   # parameters/locals (h, r, i) as not assignable once the secondary-overage loop carries a contract (spurious frame failures, 250 s)
